@@ -72,8 +72,12 @@ def parseClient (fs : List String) : Option (Client × List String) := do
         | nCID :: rest =>
           let (cids, rest) ← takeHex (← nCID.toNat?) rest
           match rest with
-          | inv :: own :: f :: ss :: sb :: par :: ownSvc :: svc :: ssobj :: tags :: rest =>
+          | inv :: own :: f :: ss :: sb :: par :: ownSvc :: svc :: ssobj :: tags ::
+              iql :: ist :: ups :: upsEn :: sched :: ssConf :: rest =>
             let c : Client := {
+              ignoreQueryLog := ← parseBool iql, ignoreStatistics := ← parseBool ist
+              upstreams := ← ups.toNat?, upstreamsCacheEnabled := ← parseBool upsEn
+              sched := ← sched.toNat?, ssConf := ← ssConf.toNat?
               uid := ← uid.toNat?, ver := ← ver.toNat?, name := ← hexDecode name
               ips := ips, subnets := subs, macs := macs, cids := cids
               invalidConf := ← parseBool inv, useOwnSettings := ← parseBool own
@@ -106,8 +110,12 @@ def parseClientS (fs : List String) : Option (Except SetErr Client × List Strin
   | uid :: ver :: name :: nID :: rest =>
     let (ids, rest) ← takeIDStrings (← nID.toNat?) rest
     match rest with
-    | inv :: own :: f :: ss :: sb :: par :: ownSvc :: svc :: ssobj :: tags :: rest =>
+    | inv :: own :: f :: ss :: sb :: par :: ownSvc :: svc :: ssobj :: tags ::
+        iql :: ist :: ups :: upsEn :: sched :: ssConf :: rest =>
       let c : Client := {
+        ignoreQueryLog := ← parseBool iql, ignoreStatistics := ← parseBool ist
+        upstreams := ← ups.toNat?, upstreamsCacheEnabled := ← parseBool upsEn
+        sched := ← sched.toNat?, ssConf := ← ssConf.toNat?
         uid := ← uid.toNat?, ver := ← ver.toNat?, name := ← hexDecode name
         ips := [], subnets := [], macs := [], cids := []
         invalidConf := ← parseBool inv, useOwnSettings := ← parseBool own
@@ -139,6 +147,8 @@ def parseProbes : Nat → List String → Option (List Probe × List String)
   | _, _ => none
 
 structure State where
+  /-- which `Persistent.IDs` the tree has: reported by the harness with `reset` -/
+  fixEUI64 : Bool
   probes : List Probe
   model : Storage
   world : World
@@ -189,6 +199,7 @@ def errName : Err → String
   | .emptyName => "emptyName" | .noIDs => "noIDs" | .noUID => "noUID" | .invalidConf => "invalidConf"
   | .uidClash => "uidClash" | .nameClash => "nameClash" | .cidClash => "cidClash" | .ipClash => "ipClash"
   | .subnetClash => "subnetClash" | .macClash => "macClash" | .notFound => "notFound"
+  | .restartFailed => "restartFailed"
 
 def showRes : Res → List String
   | .ok => ["ok"] | .err e => ["err", errName e] | .panic => ["panic"]
@@ -202,28 +213,46 @@ def parseAll (s : String) : Option (List (Nat × Nat)) :=
     | [u, v] => do pure (← u.toNat?, ← v.toNat?)
     | _ => none
 
-def parseOp (op : String) (ins : List String) : Option (Except SetErr Op) := do
+/-- Every field of every client, in listing order (compared with the
+implementation only: the spec speaks through the probes). -/
+def showFull (l : List Client) : String :=
+  if l.isEmpty then "-" else
+  ",".intercalate (l.map fun c => "/".intercalate [toString c.uid, toString c.ver,
+    toString c.ips.length, toString c.subnets.length, toString c.macs.length, toString c.cids.length,
+    String.join ([c.useOwnSettings, c.filteringEnabled, c.safeSearchEnabled, c.safeBrowsingEnabled,
+      c.parentalEnabled, c.useOwnBlockedServices, c.ignoreQueryLog, c.ignoreStatistics,
+      c.upstreamsCacheEnabled].map showB),
+    toString c.svc, toString c.safeSearch, toString c.tags, toString c.upstreams, toString c.sched,
+    toString c.ssConf])
+
+inductive Line where
+  | op (o : Op)
+  | badIDs (e : SetErr)
+  | restart
+
+def parseOp (op : String) (ins : List String) : Option Line := do
   match op, ins with
   | "C04.add", fs =>
     let (c, rest) ← parseClient fs
     if rest ≠ [] then none
-    pure (.ok (.add c))
+    pure (.op (.add c))
   | "C04.update", name :: fs =>
     let (c, rest) ← parseClient fs
     if rest ≠ [] then none
-    pure (.ok (.update (← hexDecode name) c))
+    pure (.op (.update (← hexDecode name) c))
   | "C04.addS", fs =>
     let (c, rest) ← parseClientS fs
     if rest ≠ [] then none
-    pure (c.map Op.add)
+    pure (match c with | .ok c => .op (.add c) | .error e => .badIDs e)
   | "C04.updateS", name :: fs =>
     let (c, rest) ← parseClientS fs
     if rest ≠ [] then none
     let name ← hexDecode name
-    pure (c.map (Op.update name))
-  | "C04.remove", [name] => pure (.ok (.remove (← hexDecode name)))
-  | "C04.dhcpset", [k, a, z, mac] => pure (.ok (.dhcpSet (← parseIP k a z) (← hexDecode mac)))
-  | "C04.dhcpdel", [k, a, z] => pure (.ok (.dhcpDel (← parseIP k a z)))
+    pure (match c with | .ok c => .op (.update name c) | .error e => .badIDs e)
+  | "C04.remove", [name] => pure (.op (.remove (← hexDecode name)))
+  | "C04.dhcpset", [k, a, z, mac] => pure (.op (.dhcpSet (← parseIP k a z) (← hexDecode mac)))
+  | "C04.dhcpdel", [k, a, z] => pure (.op (.dhcpDel (← parseIP k a z)))
+  | "C04.restart", [] => pure .restart
   | _, _ => none
 
 /-- Split the implementation's observation: result, one field per probe, "R", all clients. -/
@@ -237,17 +266,19 @@ def splitImpl (nProbes : Nat) (impl : List String) : Option (Bool × List String
   else
     let seen := rest.take nProbes
     match rest.drop nProbes with
-    | ["R", all] => if seen.length = nProbes then some (res == ["ok"], seen, all) else none
+    | ["R", all, "F", _] => if seen.length = nProbes then some (res == ["ok"], seen, all) else none
     | _ => none
 
-def stepOp (st : State) (eop : Except SetErr Op) (impl : List String) : State × String :=
-  -- a client whose identifier strings SetIDs rejects never reaches the storage
-  let (m', resS, op) : Storage × List String × Op := match eop with
-    | .ok op => let (m', res) := step st.model op; (m', showRes res, op)
-    | .error .empty => (st.model, ["err", "emptyID"], .remove [])
-    | .error .badClientID => (st.model, ["err", "badID"], .remove [])
+def stepOp (st : State) (ln : Line) (impl : List String) : State × String :=
+  -- a client whose identifier strings SetIDs rejects never reaches the storage;
+  -- a restart must leave the registry as it was (the spec's world is not touched)
+  let (m', resS, op, isRestart) : Storage × List String × Op × Bool := match ln with
+    | .op op => let (m', res) := step st.model op; (m', showRes res, op, false)
+    | .badIDs .empty => (st.model, ["err", "emptyID"], .remove [], false)
+    | .badIDs .badClientID => (st.model, ["err", "badID"], .remove [], false)
+    | .restart => let (m', res) := st.model.restart st.fixEUI64; (m', showRes res, .remove [], true)
   let out := resS ++ st.probes.map (modelProbe m') ++
-    ["R", showAll (m'.index.rangeByName.map fun c => (c.uid, c.ver))]
+    ["R", showAll (m'.index.rangeByName.map fun c => (c.uid, c.ver)), "F", showFull m'.index.rangeByName]
   let agree := out == impl
   -- spec monitor on the implementation's observation
   let (w', spec) : World × Option String :=
@@ -256,7 +287,10 @@ def stepOp (st : State) (eop : Except SetErr Op) (impl : List String) : State ×
     | some (accepted, seenS, allS) =>
       match seenS.mapM parseSeen, parseAll allS with
       | some seen, some all =>
-        let (w', why) := specStep st.world op accepted (st.probes.zip seen) all
+        -- restart: whatever the implementation says, the registry the user built is
+        -- still the one that must be served afterwards
+        let (w', why) := specStep st.world op (accepted && !isRestart) (st.probes.zip seen) all
+        let why := if isRestart && !accepted then some Why.restart else why
         (w', why.map Why.token)
       | _, _ => (st.world, some "C04.unparsable-observation")
   ({ st with model := m', world := w' }, verdict agree spec ("\t".intercalate out))
@@ -269,7 +303,10 @@ def step' (st : Option State) (line : String) : Option State × String :=
     | some (n :: ins, impl) =>
       match n.toNat?.bind (fun n => parseProbes n ins) with
       | some (probes, []) =>
-        (some ⟨probes, Storage.empty, World.empty⟩, verdict (impl == ["ok"]) none "ok")
+        -- "ok" (tree as it is) or "ok fix-eui64" (repaired `IDs`)
+        let fix := impl == ["ok", "fix-eui64"]
+        (some ⟨fix, probes, Storage.empty, World.empty⟩,
+          verdict (impl == ["ok"] || fix) none ("\t".intercalate impl))
       | _ => (none, "bad-op")
     | _ => (none, "bad-op")
   | op :: rest =>
